@@ -375,8 +375,17 @@ def _termination(ctx, rep, eng):
                     if isinstance(lo, ast.BinOp) and isinstance(lo.op, ast.Add) and \
                             isinstance(lo.right, ast.Constant) and lo.right.value >= 1:
                         ok = True
+    adj = None
+    if not ok:
+        adj = _adjacency_extension(f)
+        if adj is True:
+            ok = True
     if ok:
         rep.ok("termination", cm.rel + "::_regex_stack::strictly-increasing", cm.where(f))
+    elif adj is False:
+        rep.violated("termination", cm.rel + "::_regex_stack::strictly-increasing", cm.where(f),
+                     "sequence enumeration no longer extends with strictly larger indices (the successor "
+                     "table is filled with indices that are not larger)")
     else:
         # a range that starts at or below the last index is the violation; an enumeration written
         # some other way is not recognised
@@ -389,6 +398,115 @@ def _termination(ctx, rep, eng):
         else:
             rep.undecided("termination", cm.rel + "::_regex_stack::strictly-increasing", cm.where(f),
                           "the enumeration of extensions is not a range over larger indices; not recognised")
+
+
+def _adjacency_extension(f):
+    """The extensions of a sequence are read from a table T[last index] (adjacency lists): True when
+    every entry ever put into T[a] is drawn from range(a + c, ...) with c >= 1, False when one is
+    drawn from a range that starts at or below a, None when the table is filled some other way."""
+    tables = set()
+    for w in ast.walk(f):
+        if not isinstance(w, ast.While):
+            continue
+        local = {}
+        for a in ast.walk(w):
+            if isinstance(a, ast.Assign) and len(a.targets) == 1 and isinstance(a.targets[0], ast.Name):
+                local.setdefault(a.targets[0].id, []).append(a.value)
+        for loop in ast.walk(w):
+            if isinstance(loop, (ast.For, ast.comprehension)):
+                it = loop.iter
+                if isinstance(it, ast.Name) and len(local.get(it.id, [])) == 1:
+                    it = local[it.id][0]
+                if isinstance(it, ast.Subscript) and isinstance(it.value, ast.Name):
+                    tables.add(it.value.id)
+    if not tables:
+        return None
+    verdict = None
+    for t in tables:
+        writes = 0
+        for n in ast.walk(f):
+            # T[a].append(b)
+            if isinstance(n, ast.Call) and isinstance(n.func, ast.Attribute) and n.func.attr in ("append", "add") \
+                    and isinstance(n.func.value, ast.Subscript) and isinstance(n.func.value.value, ast.Name) \
+                    and n.func.value.value.id == t and len(n.args) == 1:
+                writes += 1
+                a_, b_ = n.func.value.slice, n.args[0]
+                if not (isinstance(a_, ast.Name) and isinstance(b_, ast.Name)):
+                    return None
+                # the loop that draws b
+                cur = getattr(n, "_parent", None)
+                rng = None
+                while cur is not None and cur is not f:
+                    if isinstance(cur, ast.For) and isinstance(cur.target, ast.Name) and cur.target.id == b_.id:
+                        rng = cur.iter
+                        break
+                    cur = getattr(cur, "_parent", None)
+                if not (isinstance(rng, ast.Call) and e1.callee_name(rng.func) == "range" and len(rng.args) >= 2):
+                    return None
+                lo = rng.args[0]
+                off = None      # range starts at a + off
+                if isinstance(lo, ast.Name) and lo.id == a_.id:
+                    off = 0
+                elif isinstance(lo, ast.BinOp) and isinstance(lo.op, (ast.Add, ast.Sub)) and isinstance(lo.left, ast.Name) \
+                        and lo.left.id == a_.id and isinstance(lo.right, ast.Constant) and isinstance(lo.right.value, int):
+                    off = lo.right.value if isinstance(lo.op, ast.Add) else -lo.right.value
+                elif isinstance(lo, ast.Constant) and lo.value == 0:
+                    off = 0     # from the first index: not above a
+                if off is None:
+                    return None
+                if off >= 1:
+                    verdict = True if verdict is None else verdict
+                else:
+                    verdict = False
+            # any other store into the table: T[x] = ..., T.append(...), T[x] += ...
+            elif isinstance(n, (ast.Assign, ast.AugAssign)):
+                tg = n.targets if isinstance(n, ast.Assign) else [n.target]
+                for x in tg:
+                    if isinstance(x, ast.Subscript) and isinstance(x.value, ast.Name) and x.value.id == t:
+                        return None
+            elif isinstance(n, ast.Call) and isinstance(n.func, ast.Attribute) and isinstance(n.func.value, ast.Name) \
+                    and n.func.value.id == t and n.func.attr in ("append", "extend", "insert", "__setitem__"):
+                return None
+        # the table built in one go: T = [[j for j in range(i + c, ...) if ...] for i in range(...)]
+        for n in ast.walk(f):
+            if isinstance(n, ast.Assign) and len(n.targets) == 1 and isinstance(n.targets[0], ast.Name) \
+                    and n.targets[0].id == t and isinstance(n.value, ast.ListComp) \
+                    and isinstance(n.value.elt, ast.ListComp) and len(n.value.generators) == 1 \
+                    and len(n.value.elt.generators) == 1:
+                og, ig = n.value.generators[0], n.value.elt.generators[0]
+                a_ = None
+                if isinstance(og.iter, ast.Call) and e1.callee_name(og.iter.func) == "range" \
+                        and isinstance(og.target, ast.Name) and len(og.iter.args) == 1:
+                    a_ = og.target.id
+                elif isinstance(og.iter, ast.Call) and e1.callee_name(og.iter.func) == "enumerate" \
+                        and isinstance(og.target, ast.Tuple) and og.target.elts and isinstance(og.target.elts[0], ast.Name) \
+                        and len(og.iter.args) == 1:
+                    a_ = og.target.elts[0].id
+                if a_ is None or not (isinstance(n.value.elt.elt, ast.Name) and isinstance(ig.target, ast.Name)
+                                      and n.value.elt.elt.id == ig.target.id):
+                    return None
+                rng = ig.iter
+                if not (isinstance(rng, ast.Call) and e1.callee_name(rng.func) == "range" and len(rng.args) >= 2):
+                    return None
+                lo = rng.args[0]
+                off = None
+                if isinstance(lo, ast.Name) and lo.id == a_:
+                    off = 0
+                elif isinstance(lo, ast.BinOp) and isinstance(lo.op, (ast.Add, ast.Sub)) and isinstance(lo.left, ast.Name) \
+                        and lo.left.id == a_ and isinstance(lo.right, ast.Constant) and isinstance(lo.right.value, int):
+                    off = lo.right.value if isinstance(lo.op, ast.Add) else -lo.right.value
+                elif isinstance(lo, ast.Constant) and lo.value == 0:
+                    off = 0
+                if off is None:
+                    return None
+                writes += 1
+                if off >= 1:
+                    verdict = True if verdict is None else verdict
+                else:
+                    verdict = False
+        if writes == 0:
+            return None
+    return verdict
 
 
 def _concat_parts(e):
